@@ -22,13 +22,13 @@ def parseOpR (j : Json) : Except String OpR := do
   | some "tick" => return .tick
   | _ => return .base (← parseOp j)
 
-def keyLt (a b : Key) : Bool := a.1 < b.1 || (a.1 == b.1 && a.2 < b.2)
+def keyLt (a b : (Int × String)) : Bool := a.1 < b.1 || (a.1 == b.1 && a.2 < b.2)
 
 def obsJsonR (gr : GraphR) (sr : StateR) : Json :=
   let o := obsJson gr.g sr.s
   if gr.execLong.isEmpty && gr.subLong.isEmpty then o
   else o.setObjVal! "rwait"
-    (jOfList (fun (k : Key) => Json.arr #[jOfInt k.1, Json.str k.2]) (sortBy keyLt sr.hold))
+    (jOfList (fun (k : (Int × String)) => Json.arr #[jOfInt k.1, Json.str k.2]) (sortBy keyLt sr.hold))
 
 structure CaseR where
   graph : GraphR
